@@ -103,6 +103,9 @@ mut("c33_supercell_memo_ignores_values", ["C33"], "ClusterSupercell.clusterevalu
           "        # add on our constant term\n        interact.append(E0)\n        self._evalmemo = (memokey, [list(x) for x in siteinteract], list(interact))\n        return siteinteract, interact\n\n    def jumpnetworkevaluator(self")])
 # ---------------- C35
 mut("c35_np_Inf", ["C35"], "re-introduce D5", [(CL, "self.jump_Q[n] = np.inf", "self.jump_Q[n] = np.Inf")])
+mut("c35_param_dtypes", ["C35"], "re-introduce D8: MonteCarloSampler_param passes values and occupation with the reference sampler's dtypes",
+    [(CL, "    param['interactvalue'] = np.asarray(MCsampler.interactvalue, dtype=float)\n", "    param['interactvalue'] = MCsampler.interactvalue\n"),
+     (CL, "        occ = np.array(MCsampler.occ, dtype=int)\n", "        occ = MCsampler.occ.copy()\n")])
 mut("c35_mcmoves_le", ["C35"], "MCmoves accepts ties (<= instead of <)", [(CL, "            if dE < kTlogu[i]:\n", "            if dE <= kTlogu[i]:\n")])
 mut("c35_copy_shares_occ", ["C35"], "jit copy() shares the occ array",
     [(CL, "                                     self.occ.copy(), self.clustercount.copy(), self.dcluster.copy(),\n", "                                     self.occ, self.clustercount.copy(), self.dcluster.copy(),\n")])
